@@ -453,7 +453,15 @@ def walkFold (ppOf : Int → Nat → Nat) (api : Walk.Api) :
     | some a => walkFold ppOf api a ts
     | none => none
 
-def walkAnswer (consumer pf ps kind script steps : String) : String :=
+/-- op `walk` (spec-backed, `C15_walk_rows_spec` / `C15_walk_false_is_complete`): the strides only (rows handed
+    over + result of the last call), all rows, and the final error once a call has returned false; op `walko`:
+    everything (observers, prefetch probes, the request log at the moment of abandonment) -/
+def walkReduce (obs : List String) (rows err : String) : String :=
+  let keep := obs.filter fun o => o.startsWith "s=" || o.startsWith "d=" || o.startsWith "D="
+  let ended := obs.any fun o => o.endsWith "/F" || o.startsWith "d=" || o.startsWith "D="
+  s!"{if keep.isEmpty then "-" else ";".intercalate keep} rows={rows} err={if ended then err else "*"}"
+
+def walkAnswer (full : Bool) (consumer pf ps kind script steps : String) : String :=
   match ps.toInt?, parseScript script with
   | some pageSize, some sc =>
     if !(kind == "q" || kind == "x" || kind == "xs" || kind == "xd") then "bad-op" else
@@ -468,7 +476,9 @@ def walkAnswer (consumer pf ps kind script steps : String) : String :=
     | none => "bad-op"
     | some (w, obs, _) =>
       let w1 := Walk.settle ppOf w
-      s!"{";".intercalate obs} rows={showRows w1.it.out} err={showFail w1.it.cur.err} reqs={showReqs 1 w1.it.reqs}"
+      if full then
+        s!"{";".intercalate obs} rows={showRows w1.it.out} err={showFail w1.it.cur.err} reqs={showReqs 1 w1.it.reqs}"
+      else walkReduce obs (showRows w1.it.out) (showFail w1.it.cur.err)
   | _, _ => "bad-op"
 
 
@@ -488,7 +498,8 @@ def step (_ : Unit) (ws : List String) : Unit × String :=
   | ["sessx", ver, consumer, pf, ps, kind, first, script] => sessAnswer ver consumer pf ps kind first script
   | ["hist", vn, kind, consumer, scripts, steps] => histAnswer vn kind consumer scripts steps
   | ["rsess", ver, consumer, _, ps, kind, first, policy, script] => rsessAnswer ver consumer ps kind first policy script
-  | ["walk", _, consumer, pf, ps, kind, script, steps] => walkAnswer consumer pf ps kind script steps
+  | ["walk", _, consumer, pf, ps, kind, script, steps] => walkAnswer false consumer pf ps kind script steps
+  | ["walko", _, consumer, pf, ps, kind, script, steps] => walkAnswer true consumer pf ps kind script steps
   | ["rsessx", ver, consumer, _, ps, kind, first, policy, script] => rsessAnswer ver consumer ps kind first policy script
   | _ => "bad-op")
 
